@@ -78,13 +78,60 @@ Definition moves (v : variant) (auto : bool) (s : st) : list event :=
   enabled_internal v s ++
   (if auto then match wr s with WBusy _ => [EWriteOk] | _ => [] end else []).
 
+(* Once the loop has returned, what is left to happen - handler goroutines leaving, reader and writer
+   noticing the closed conn, Stop - are moves of separate components that neither disable one another nor
+   differ in what they output, so every order ends in the same quiescent state: one order is explored
+   (without this a shutdown with k finished handlers would cost 2^k states). *)
+Fixpoint one_giveup (seen : bool) (l : list event) : list event :=
+  match l with
+  | [] => []
+  | EGiveUp r :: rest => if seen then one_giveup true rest else EGiveUp r :: one_giveup true rest
+  | e :: rest => e :: one_giveup seen rest
+  end.
+
+(* Likewise before the return: "handler goroutine r leaves" stays enabled until it happens, commutes with
+   every event except "the loop takes r's completion", and outputs nothing; every maximal run can be
+   reordered so that the goroutines that leave do so in a fixed order, each as late as the completions of
+   the earlier ones require.  So of the enabled EGiveUp events only the first is explored. *)
+Definition ordered_moves (v : variant) (auto : bool) (s : st) : list event :=
+  match pc s with
+  | PReturned => firstn 1 (moves v auto s)
+  | _ => one_giveup false (moves v auto s)
+  end.
+
 Definition succs (v : variant) (auto : bool) (n : node) : list node :=
   flat_map (fun e => match step v (fst n) e with
                      | Some (s', o) => [(s', rev o ++ snd n)]
-                     | None => [] end) (moves v auto (fst n)).
+                     | None => [] end) (ordered_moves v auto (fst n)).
+
+(* visited nodes, bucketed by a cheap fingerprint (outputs so far, loop pc, reader, writer, tag-table size)
+   so that membership compares whole states only within a bucket *)
+Definition out_code (o : output) : N :=
+  match o with
+  | OReturn => 1 | OStop => 2
+  | ORecv r _ _ => 3 + 16 * r | ODispatch r _ => 4 + 16 * r | OCancel r => 5 + 16 * r | OFin r _ => 6 + 16 * r
+  | OTake f => 7 + 16 * f_rid f | OFrame f => 8 + 16 * f_rid f | OLost f => 9 + 16 * f_rid f
+  | OWriteErr f => 10 + 16 * f_rid f
+  end.
+Definition fingerprint (n : node) : N :=
+  let s := fst n in
+  let mix (acc x : N) := N.lxor (N.shiftl acc 5) x in   (* cheap on binary numbers; keys just get long *)
+  let a := fold_left (fun acc o => mix acc (out_code o)) (snd n) 7 in
+  let a := mix a (match pc s with Main => 1 | SendImm f => 2 + 4 * f_rid f | SendDone h _ => 3 + 4 * h | PReturned => 4 end) in
+  let a := mix a (match rd s with RIdle => 1 | RHold r _ _ => 2 + 4 * r | RDead => 3 end) in
+  let a := mix a (match wr s with WIdle => 1 | WBusy f => 2 + 4 * f_rid f | WDead => 3 end) in
+  let a := mix a (N.of_nat (length (inq s))) in
+  let a := mix a (N.of_nat (size (tags s))) in
+  mix a ((if closed s then 1 else 0) + 2 * stops s).
+
+Definition seen_t := gmap N (list node).
+Definition seen_mem (n : node) (sn : seen_t) : bool :=
+  match sn !! fingerprint n with Some l => node_in n l | None => false end.
+Definition seen_add (n : node) (sn : seen_t) : seen_t :=
+  let k := fingerprint n in <[k := n :: match sn !! k with Some l => l | None => [] end]> sn.
 
 (* returns (quiescent nodes, out_of_fuel) *)
-Fixpoint explore (v : variant) (auto : bool) (fuel : nat) (todo seen quiet : list node) : list node * bool :=
+Fixpoint explore (v : variant) (auto : bool) (fuel : nat) (todo : list node) (seen : seen_t) (quiet : list node) : list node * bool :=
   match fuel with
   | O => (quiet, match todo with [] => false | _ => true end)
   | S fuel' =>
@@ -94,8 +141,10 @@ Fixpoint explore (v : variant) (auto : bool) (fuel : nat) (todo seen quiet : lis
           match succs v auto n with
           | [] => explore v auto fuel' rest seen (if node_in n quiet then quiet else n :: quiet)
           | ss =>
-              let fresh := fold_left (fun acc m => if node_in m seen || node_in m acc then acc else m :: acc) ss [] in
-              explore v auto fuel' (rest ++ fresh) (fresh ++ seen) quiet
+              let '(fresh, seen') :=
+                fold_left (fun (acc : list node * seen_t) m =>
+                             if seen_mem m (snd acc) then acc else (m :: fst acc, seen_add m (snd acc))) ss ([], seen) in
+              explore v auto fuel' (fresh ++ rest) seen' quiet
           end
       end
   end.
@@ -134,7 +183,7 @@ Definition sexp_eqb (a b : sexp) : bool := list_N_eqb (print_sexp a) (print_sexp
 Definition dedup_states (l : list st) : list st :=
   fold_left (fun acc s => if existsb (fun t => bool_decide (s = t)) acc then acc else s :: acc) l [].
 
-Definition EXPLORE_FUEL : nat := 4000.
+Definition EXPLORE_FUEL : nat := N.to_nat 60000.
 
 (* (bulk ...): the events of one filler request, from arrival to its reply on the wire *)
 Definition bulk_events (rid tag : N) : list event :=
@@ -165,7 +214,7 @@ Definition step_set (v : variant) (auto : bool) (states : list st) (act obs : se
                   | Some n => [n]
                   | None => []
                   end) states in
-  let '(quiet, oof) := explore v auto EXPLORE_FUEL starts starts [] in
+  let '(quiet, oof) := explore v auto EXPLORE_FUEL starts (fold_left (fun sn n => seen_add n sn) starts ∅) [] in
   let projs := map (fun n => (fst n, project (rev (snd n)))) quiet in
   let good := List.filter (fun sp => sexp_eqb (snd sp) obs) projs in
   (dedup_states (map fst good), map snd projs, oof).
